@@ -8,7 +8,7 @@ props = {json.loads(l)["id"]: json.loads(l) for l in open("/verif/properties.jso
 p = props[pid]
 wt = f"/tmp/seed/tw_{pid}"
 files = ", ".join(p["anchors"]["files"])
-print(f"""You are helping to evaluate a verification tool for the Python library pyhms (agh-a2s/pyhms: a Hierarchic Memetic Strategy — a tree of evolutionary sub-populations with sprouting and stop conditions). You get a private scratch git worktree of the library at {wt} (source under {wt}/pyhms, tests under {wt}/test). Work ONLY inside {wt} and /tmp/seed/twout_{pid}. Never touch /repo or /verif, never run `git commit`, never use `git stash`.
+print(f"""You are helping to evaluate a verification tool for the Python library pyhms (agh-a2s/pyhms: a Hierarchic Memetic Strategy — a tree of evolutionary sub-populations with sprouting and stop conditions). You get a private scratch git worktree of the library at {wt} (source under {wt}/pyhms, tests under {wt}/test). Work ONLY inside {wt} and /tmp/seed/twout_{pid}. Never touch /repo or /verif, never run `git commit`, never use `git stash` (the stash is shared between all worktrees of the repository).
 
 The library satisfies this property, and it must KEEP satisfying it after your edits:
 
